@@ -22,7 +22,9 @@ import (
 
 	"pgregory.net/rapid"
 
+	"github.com/projectcalico/calico/felix/ip"
 	"github.com/projectcalico/calico/felix/labelindex"
+	"github.com/projectcalico/calico/felix/labelindex/ipsetmember"
 	"github.com/projectcalico/calico/felix/labelindex/labelnamevalueindex"
 	"github.com/projectcalico/calico/felix/labelindex/labelrestrictionindex"
 	"github.com/projectcalico/calico/lib/std/uniquelabels"
@@ -193,6 +195,83 @@ func c07Labels(t *rapid.T, what string) map[string]string {
 		}
 	}
 	return m
+}
+
+// c07MutateParents returns a changed copy of a parent list: permuted, with one entry
+// replaced / added / dropped, or with a duplicate introduced or resolved.
+func c07MutateParents(t *rapid.T, old []string) ([]string, string) {
+	ps := append([]string{}, old...)
+	kind := rapid.SampledFrom([]string{"permute", "permute", "permute", "replace", "replace", "add", "drop"}).Draw(t, "parentsChange")
+	switch {
+	case kind == "permute" && len(ps) >= 2:
+		i := rapid.IntRange(0, len(ps)-1).Draw(t, "swapA")
+		j := rapid.IntRange(0, len(ps)-2).Draw(t, "swapB")
+		if j >= i {
+			j++
+		}
+		ps[i], ps[j] = ps[j], ps[i]
+	case kind == "replace" && len(ps) >= 1:
+		i := rapid.IntRange(0, len(ps)-1).Draw(t, "replaceAt")
+		ps[i] = rapid.SampledFrom(c07ParentIDs).Draw(t, "replaceWith")
+	case kind == "drop" && len(ps) >= 1:
+		i := rapid.IntRange(0, len(ps)-1).Draw(t, "dropAt")
+		ps = append(ps[:i:i], ps[i+1:]...)
+	default:
+		kind = "add"
+		i := rapid.IntRange(0, len(ps)).Draw(t, "addAt")
+		np := rapid.SampledFrom(c07ParentIDs).Draw(t, "addParent")
+		ps = append(ps[:i:i], append([]string{np}, ps[i:]...)...)
+	}
+	return ps, kind
+}
+
+func c07SameMultiset(a, b []string) bool {
+	if len(a) != len(b) {
+		return false
+	}
+	x, y := append([]string{}, a...), append([]string{}, b...)
+	sort.Strings(x)
+	sort.Strings(y)
+	for i := range x {
+		if x[i] != y[i] {
+			return false
+		}
+	}
+	return true
+}
+
+func c07SameSet(a, b []string) bool {
+	in := func(s []string, v string) bool {
+		for _, x := range s {
+			if x == v {
+				return true
+			}
+		}
+		return false
+	}
+	for _, v := range a {
+		if !in(b, v) {
+			return false
+		}
+	}
+	for _, v := range b {
+		if !in(a, v) {
+			return false
+		}
+	}
+	return true
+}
+
+func c07MapsEqual(a, b map[string]string) bool {
+	if len(a) != len(b) {
+		return false
+	}
+	for k, v := range a {
+		if w, ok := b[k]; !ok || w != v {
+			return false
+		}
+	}
+	return true
 }
 
 type c07ItemModel struct {
@@ -474,10 +553,69 @@ func TestVerifC07LabelIndexes(t *testing.T) {
 				idx.DeleteLabels(id)
 				ops = append(ops, "i")
 			},
+			"touchItem": func(t *rapid.T) {
+				// Update an existing item's own labels (sometimes to the same value), keeping its
+				// parent list - whatever state those parents are in (missing, label-less, ...).
+				ids := c07SortedKeys(m.items)
+				if len(ids) == 0 {
+					ops = append(ops, "-")
+					return
+				}
+				id := rapid.SampledFrom(ids).Draw(t, "item")
+				it := m.items[id]
+				labels := it.labels
+				if rapid.IntRange(0, 3).Draw(t, "sameLabels") != 0 {
+					labels = c07Labels(t, "item")
+				}
+				for _, p := range it.parents {
+					if len(m.parents[p]) == 0 {
+						classes["item-updated-while-parent-has-no-labels"] = true
+					}
+				}
+				m.items[id] = &c07ItemModel{labels: labels, parents: it.parents}
+				idx.UpdateLabels(id, uniquelabels.Make(labels), append([]string{}, it.parents...))
+				nvi.Remove(id)
+				nvi.Add(id, c07Own{labels: uniquelabels.Make(labels)})
+				ops = append(ops, "T")
+			},
+			"reparentItem": func(t *rapid.T) {
+				// Change only the parent list of an existing item (labels unchanged).
+				ids := c07SortedKeys(m.items)
+				if len(ids) == 0 {
+					ops = append(ops, "-")
+					return
+				}
+				id := rapid.SampledFrom(ids).Draw(t, "item")
+				it := m.items[id]
+				effBefore := m.effective(id)
+				parents, kind := c07MutateParents(t, it.parents)
+				m.items[id] = &c07ItemModel{labels: it.labels, parents: parents}
+				effAfter := m.effective(id)
+				switch {
+				case c07SameMultiset(it.parents, parents):
+					classes["parents-only-permuted"] = true
+					if !c07MapsEqual(effBefore, effAfter) {
+						classes["parents-only-permuted-changes-effective-labels"] = true
+					}
+				case c07SameSet(it.parents, parents) || len(it.parents) == len(parents):
+					classes["parents-same-length-change"] = true
+				}
+				idx.UpdateLabels(id, uniquelabels.Make(it.labels), append([]string{}, parents...))
+				ops = append(ops, "R"+kind[:1])
+			},
 			"updateParent": func(t *rapid.T) {
 				id := rapid.SampledFrom(c07ParentIDs).Draw(t, "parentID")
 				labels := c07Labels(t, "parent")
 				before := snapshot()
+				if len(m.parents[id]) == 0 && len(labels) > 0 {
+					for _, it := range m.items {
+						for _, p := range it.parents {
+							if p == id {
+								classes["parent-labels-appear-while-referenced"] = true
+							}
+						}
+					}
+				}
 				m.parents[id] = labels
 				idx.UpdateParentLabels(id, labels)
 				if n := diff(before); n > 0 {
@@ -567,5 +705,322 @@ func TestVerifC07LabelIndexes(t *testing.T) {
 			}
 			return map[string]any{"ops": key, "final_selectors": sels, "final_items": items, "final_parents": m.parents}
 		}, cls...)
+	})
+}
+
+// ---- the second label index: SelectorAndNamedPortIndex ----
+//
+// Every endpoint gets one fixed, unique address and every IP set is a plain selector set, so
+// "member <addr of e> is in IP set s" is exactly "the index reports s as matching e", and
+// member added/removed callbacks are the match start/stop notifications.  This exercises the
+// inheritance-aware candidate pruning (endpoint-label index vs profile-label index) that is
+// not reachable through the three exported index types above.
+
+func c07EndpointAddr(i int) string { return fmt.Sprintf("10.7.0.%d/32", i+1) }
+
+// c07PositiveLabels returns the label names on which sel places a "must be present"
+// restriction.
+func c07PositiveLabels(sel *selector.Selector) []string {
+	var out []string
+	for ln, r := range sel.LabelRestrictions().All() {
+		if r.MustBePresent {
+			out = append(out, ln.Value())
+		}
+	}
+	sort.Strings(out)
+	return out
+}
+
+func TestVerifC07SelectorIndexMatching(t *testing.T) {
+	ev.Quiet()
+	rec := ev.New("C07", "selectorindex",
+		"rapid state machine over SelectorAndNamedPortIndex used as a selector->endpoint matcher: 5 endpoints with one fixed unique address each (UpdateEndpointOrSet/DeleteEndpoint; updates that keep the profile list, that only permute/replace/add/drop profile ids, duplicates), 3 profiles (UpdateParentLabels/DeleteParentLabels; referenced before they exist, label-less, deleted and re-created), 4 plain selector IP sets with a fixed definition per id, activated/deleted/re-activated before and after the endpoints exist; the SAME label names are used on endpoints and on profiles. Non-trivial = an IP set was activated while >=1 endpoint existed and a label it positively restricts was present both directly on an endpoint and on a profile, or a profile change flipped >=1 match; distinct = distinct action-kind sequence",
+		"effective labels: own labels override profile labels; first listed profile wins",
+		"direct evaluation = Selector.Evaluate on the effective label map",
+		"an IP set id always stands for the same selector (Felix derives the id from the definition)")
+	defer rec.Write()
+	rapid.Check(t, func(t *rapid.T) {
+		m := &c07Model{items: map[string]*c07ItemModel{}, parents: map[string]map[string]string{}, sels: map[string]*selector.Selector{}}
+		addrToItem := map[string]string{}
+		itemAddr := map[string][]ip.CIDR{}
+		for i, id := range c07ItemIDs {
+			c := ip.MustParseCIDROrIP(c07EndpointAddr(i))
+			itemAddr[id] = []ip.CIDR{c}
+			addrToItem[c.String()] = id
+		}
+		active := map[c07Pair]bool{}
+		var cbErr string
+		idx := labelindex.NewSelectorAndNamedPortIndex(false)
+		pairOf := func(setID string, member ipsetmember.IPSetMember) (c07Pair, bool) {
+			cm, ok := member.(ipsetmember.CIDROrIPOnlyIPSetMember)
+			if !ok {
+				cbErr = fmt.Sprintf("HARNESS-GAP: unexpected member type %T", member)
+				return c07Pair{}, false
+			}
+			item, ok := addrToItem[cm.CIDR().String()]
+			if !ok {
+				cbErr = fmt.Sprintf("member %s of IP set %s is not the address of any endpoint", cm.CIDR(), setID)
+				return c07Pair{}, false
+			}
+			return c07Pair{setID, item}, true
+		}
+		idx.OnMemberAdded = func(setID string, member ipsetmember.IPSetMember) {
+			p, ok := pairOf(setID, member)
+			if !ok || cbErr != "" {
+				return
+			}
+			if _, known := m.sels[setID]; !known {
+				cbErr = fmt.Sprintf("match start (%s,%s) for a selector that is not active", p.sel, p.item)
+				return
+			}
+			if active[p] {
+				cbErr = fmt.Sprintf("match start (%s,%s) while the match is already started (two starts)", p.sel, p.item)
+				return
+			}
+			active[p] = true
+		}
+		idx.OnMemberRemoved = func(setID string, member ipsetmember.IPSetMember) {
+			p, ok := pairOf(setID, member)
+			if !ok || cbErr != "" {
+				return
+			}
+			if _, known := m.sels[setID]; !known {
+				return
+			}
+			if !active[p] {
+				cbErr = fmt.Sprintf("match stop (%s,%s) without a preceding start", p.sel, p.item)
+				return
+			}
+			delete(active, p)
+		}
+
+		// Fixed selector per IP set id for this case.
+		defs := map[string]*selector.Selector{}
+		classes := map[string]bool{}
+		for _, id := range c07SelIDs {
+			var info c07SelInfo
+			var txt string
+			switch rapid.IntRange(0, 5).Draw(t, "defKind") {
+			case 0:
+				txt = c07SameLabelAnd(t, &info)
+			default:
+				txt = c07SelText(t, rapid.IntRange(0, 2).Draw(t, "selDepth"), &info)
+			}
+			sel, err := selector.Parse(txt)
+			if err != nil {
+				t.Fatalf("HARNESS-GAP: generated selector %q does not parse: %v", txt, err)
+			}
+			defs[id] = sel
+		}
+
+		var ops []string
+		sharedLabelScan, flip := false, false
+
+		snapshot := func() map[c07Pair]bool {
+			s := make(map[c07Pair]bool, len(active))
+			for k := range active {
+				s[k] = true
+			}
+			return s
+		}
+		changed := func(before map[c07Pair]bool) bool {
+			if len(before) != len(active) {
+				return true
+			}
+			for k := range before {
+				if !active[k] {
+					return true
+				}
+			}
+			return false
+		}
+		push := func(id string) {
+			it := m.items[id]
+			idx.UpdateEndpointOrSet(id, uniquelabels.Make(it.labels), itemAddr[id], nil, append([]string{}, it.parents...))
+		}
+
+		check := func(t *rapid.T) {
+			if cbErr != "" {
+				t.Fatalf("match notifications malformed: %s", cbErr)
+			}
+			for _, sid := range c07SortedKeys(m.sels) {
+				for _, iid := range c07SortedKeys(m.items) {
+					p := c07Pair{sid, iid}
+					want := m.sels[sid].Evaluate(m.effective(iid))
+					if want != active[p] {
+						t.Fatalf("SelectorAndNamedPortIndex reports match=%v for selector %s (%s) and endpoint %s, direct evaluation on effective labels %v says %v (own=%v parents=%v profiles=%v)",
+							active[p], sid, m.sels[sid], iid, m.effective(iid), want, m.items[iid].labels, m.items[iid].parents, m.parents)
+					}
+				}
+			}
+			for p := range active {
+				_, okS := m.sels[p.sel]
+				_, okI := m.items[p.item]
+				if !okS || !okI {
+					t.Fatalf("SelectorAndNamedPortIndex still reports selector %s as matching endpoint %s although one of them was deleted", p.sel, p.item)
+				}
+			}
+		}
+
+		t.Repeat(map[string]func(*rapid.T){
+			"updateEndpoint": func(t *rapid.T) {
+				id := rapid.SampledFrom(c07ItemIDs).Draw(t, "item")
+				labels := c07Labels(t, "item")
+				n := rapid.SampledFrom([]int{0, 1, 1, 1, 2, 2, 3}).Draw(t, "numParents")
+				var parents []string
+				for i := 0; i < n; i++ {
+					parents = append(parents, rapid.SampledFrom(c07ParentIDs).Draw(t, "parent"))
+				}
+				m.items[id] = &c07ItemModel{labels: labels, parents: parents}
+				push(id)
+				ops = append(ops, "I")
+			},
+			"touchEndpoint": func(t *rapid.T) {
+				ids := c07SortedKeys(m.items)
+				if len(ids) == 0 {
+					ops = append(ops, "-")
+					return
+				}
+				id := rapid.SampledFrom(ids).Draw(t, "item")
+				it := m.items[id]
+				for _, p := range it.parents {
+					if len(m.parents[p]) == 0 {
+						classes["item-updated-while-parent-has-no-labels"] = true
+					}
+				}
+				m.items[id] = &c07ItemModel{labels: c07Labels(t, "item"), parents: it.parents}
+				push(id)
+				ops = append(ops, "T")
+			},
+			"reparentEndpoint": func(t *rapid.T) {
+				ids := c07SortedKeys(m.items)
+				if len(ids) == 0 {
+					ops = append(ops, "-")
+					return
+				}
+				id := rapid.SampledFrom(ids).Draw(t, "item")
+				it := m.items[id]
+				effBefore := m.effective(id)
+				parents, kind := c07MutateParents(t, it.parents)
+				m.items[id] = &c07ItemModel{labels: it.labels, parents: parents}
+				if c07SameMultiset(it.parents, parents) {
+					classes["parents-only-permuted"] = true
+					if !c07MapsEqual(effBefore, m.effective(id)) {
+						classes["parents-only-permuted-changes-effective-labels"] = true
+					}
+				}
+				push(id)
+				ops = append(ops, "R"+kind[:1])
+			},
+			"deleteEndpoint": func(t *rapid.T) {
+				id := rapid.SampledFrom(c07ItemIDs).Draw(t, "item")
+				delete(m.items, id)
+				idx.DeleteEndpoint(id)
+				ops = append(ops, "i")
+			},
+			"updateProfile": func(t *rapid.T) {
+				id := rapid.SampledFrom(c07ParentIDs).Draw(t, "parentID")
+				labels := c07Labels(t, "parent")
+				before := snapshot()
+				if len(m.parents[id]) == 0 && len(labels) > 0 {
+					for _, it := range m.items {
+						for _, p := range it.parents {
+							if p == id {
+								classes["parent-labels-appear-while-referenced"] = true
+							}
+						}
+					}
+				}
+				m.parents[id] = labels
+				idx.UpdateParentLabels(id, labels)
+				if changed(before) {
+					flip = true
+					ops = append(ops, "P+")
+				} else {
+					ops = append(ops, "P")
+				}
+			},
+			"deleteProfile": func(t *rapid.T) {
+				id := rapid.SampledFrom(c07ParentIDs).Draw(t, "parentID")
+				before := snapshot()
+				delete(m.parents, id)
+				idx.DeleteParentLabels(id)
+				if changed(before) {
+					flip = true
+					ops = append(ops, "p+")
+				} else {
+					ops = append(ops, "p")
+				}
+			},
+			"activateSelector": func(t *rapid.T) {
+				id := rapid.SampledFrom(c07SelIDs).Draw(t, "selID")
+				sel := defs[id]
+				if _, ok := m.sels[id]; !ok {
+					if len(m.items) > 0 {
+						classes["selector-activated-after-endpoints"] = true
+						// Is a positively restricted label present both directly on an endpoint and on a profile?
+						for _, ln := range c07PositiveLabels(sel) {
+							onItem, onParent := false, false
+							for _, it := range m.items {
+								if _, ok := it.labels[ln]; ok {
+									onItem = true
+								}
+							}
+							for _, pl := range m.parents {
+								if _, ok := pl[ln]; ok {
+									onParent = true
+								}
+							}
+							if onItem && onParent {
+								sharedLabelScan = true
+							}
+						}
+					} else {
+						classes["selector-activated-before-endpoints"] = true
+					}
+					for _, c := range c07RestrictionKinds(sel) {
+						classes[c] = true
+					}
+				}
+				m.sels[id] = sel
+				idx.UpdateIPSet(id, sel, ipsetmember.ProtocolNone, "")
+				ops = append(ops, "S")
+			},
+			"deleteSelector": func(t *rapid.T) {
+				id := rapid.SampledFrom(c07SelIDs).Draw(t, "selID")
+				if _, ok := m.sels[id]; !ok {
+					ops = append(ops, "-")
+					return
+				}
+				idx.DeleteIPSet(id)
+				delete(m.sels, id)
+				// The whole IP set goes away; no per-member notifications are sent for it.
+				for p := range active {
+					if p.sel == id {
+						delete(active, p)
+					}
+				}
+				ops = append(ops, "s")
+			},
+			"": check,
+		})
+		if sharedLabelScan {
+			classes["scan-with-label-on-both-endpoint-and-profile"] = true
+		}
+		if flip {
+			classes["parent-change-flipped-match"] = true
+		}
+		key := strings.Join(ops, "")
+		rec.SizedCase(sharedLabelScan || flip, key, len(ops), func() any {
+			sels := map[string]string{}
+			for k, s := range m.sels {
+				sels[k] = s.String()
+			}
+			items := map[string]any{}
+			for k, it := range m.items {
+				items[k] = map[string]any{"labels": it.labels, "parents": it.parents, "effective": m.effective(k)}
+			}
+			return map[string]any{"ops": key, "final_selectors": sels, "final_items": items, "final_parents": m.parents}
+		}, c07SortedKeys(classes)...)
 	})
 }
